@@ -192,8 +192,14 @@ pub fn from_lax<O: Clone, A: Clone>(f: &LOh<O, A>) -> Result<PLax<O, A>, String>
     if !errs.is_empty() {
         return Err(errs.join("; "));
     }
+    Ok(from_lax_raw(f))
+}
+
+/// copy of all public fields without any well-formedness requirement (edge labels and adjacency
+/// are zipped; a length mismatch there is reported by `wf_lax`)
+pub fn from_lax_raw<O: Clone, A: Clone>(f: &LOh<O, A>) -> PLax<O, A> {
     let h = &f.hypergraph;
-    Ok(PLax {
+    PLax {
         w: h.nodes.clone(),
         e: h
             .edges
@@ -208,5 +214,5 @@ pub fn from_lax<O: Clone, A: Clone>(f: &LOh<O, A>) -> Result<PLax<O, A>, String>
         s: f.sources.iter().map(|v| v.0).collect(),
         t: f.targets.iter().map(|v| v.0).collect(),
         q: h.quotient.0.iter().zip(h.quotient.1.iter()).map(|(a, b)| (a.0, b.0)).collect(),
-    })
+    }
 }
